@@ -380,7 +380,8 @@ def main():
         "wall_s": round(time.time() - t0, 2),
         "violations": len(violations),
     }
-    write_evidence(pid, ev)
+    if not replay:
+        write_evidence(pid, ev)   # a replay re-judges one recorded case; it is not a coverage run
     print("%s: tier=%s obligations=%d discharged=%d violations=%d wall=%.1fs" % (
         pid, tier, cov["obligations"], cov["discharged"], len(violations), time.time() - t0))
     return status
